@@ -150,7 +150,23 @@ class _HighFd:
         return int(str(self.fd))      # a new int object on every call, as a real file object's fileno() gives
 
 
-def run_unget(tables, items, pieces, enc, pipe):
+class _Pty:
+    def __init__(self):
+        import pty
+        self.master, self.slave = pty.openpty()
+
+    def fileno(self):
+        return self.slave
+
+    def close(self):
+        for fd in (self.master, self.slave):
+            try:
+                os.close(fd)
+            except OSError:
+                pass
+
+
+def run_unget(tables, items, pieces, enc, pipe, ctx=False):
     """The keypresses `items` reach an Input (bytes naming) through unget_bytes in pieces of `pieces` items each (the
     way a window hands over what it read past a cursor report), one request after every piece - so a piece arrives
     while earlier keypresses are still buffered - then requests until nothing comes any more."""
@@ -166,8 +182,9 @@ def run_unget(tables, items, pieces, enc, pipe):
             for x in (k.events if isinstance(k, cevents.PasteEvent) else [k]):
                 keys.append(list(x) if isinstance(x, bytes) else [-1])
         return k
+    term = _Pty() if ctx else None
     try:
-        inp = cinput.Input(in_stream=pipe, keynames=tables.modes["bytes"])
+        inp = cinput.Input(in_stream=term if ctx else pipe, keynames=tables.modes["bytes"])
         pos = 0
         k = 0
         while pos < len(items):
@@ -175,13 +192,27 @@ def run_unget(tables, items, pieces, enc, pipe):
             k += 1
             inp.unget_bytes(b"".join(items[pos:pos + n]))
             pos += n
-            take(inp)
-        for _ in range(len(items) + 5):
-            if take(inp) is None:
-                break
+            if ctx:
+                # the Input's context is entered for this request only and left again (an application that goes off
+                # to an editor and comes back): keypresses still buffered stay buffered across the boundary
+                with inp:
+                    take(inp)
+            else:
+                take(inp)
+        if ctx:
+            inp.__enter__()
+        try:
+            for _ in range(len(items) + 5):
+                if take(inp) is None:
+                    break
+        finally:
+            if ctx:
+                inp.__exit__(None, None, None)
     except Exception as e:  # noqa
         exc = type(e).__name__
     finally:
+        if term is not None:
+            term.close()
         cinput.getpreferredencoding = orig
     return {"keys": keys, "exc": exc}
 
